@@ -94,13 +94,22 @@ Proof.
     eapply Forall_impl; [|exact He]. intros e (Hr & _). exact Hr.
 Qed.
 
-(* the entry encoder refuses exactly the unrepresentable counts (repaired defect F1) *)
+(* the entry encoder refuses the unrepresentable counts (repaired defect F1) and, for Subscribe / SubscribeAck, a value
+   that does not fit the 4 + 16 bits of counter and eventgroup id (repaired defect F19) *)
 Lemma build_entry_counts e oi1 oi2 no1 no2 b :
-  e_idx e = Some (oi1, oi2, no1, no2) -> build_entry e = Ok b -> no1 < 16 /\ no2 < 16 /\ oi1 < 256 /\ oi2 < 256.
+  e_idx e = Some (oi1, oi2, no1, no2) -> build_entry e = Ok b ->
+  no1 < 16 /\ no2 < 16 /\ oi1 < 256 /\ oi2 < 256
+  /\ (sub_type (e_type e) = true -> N.land (e_val e) 4293918720 = 0).
 Proof.
   intros Hi. unfold build_entry. rewrite Hi.
   destruct (N.ltb_spec no1 16) as [H1|H1]; cbn [andb negb]; [|discriminate].
   destruct (N.ltb_spec no2 16) as [H2|H2]; cbn [andb negb]; [|discriminate].
+  fold (sub_type (e_type e)).
+  assert (Hsub : forall X : result bytes, (if sub_type (e_type e) && negb (N.land (e_val e) 4293918720 =? 0) then Err EStruct else X) = Ok b ->
+                 X = Ok b /\ (sub_type (e_type e) = true -> N.land (e_val e) 4293918720 = 0)).
+  { intros X. destruct (sub_type (e_type e)); cbn [andb]; [|intros HX; split; [exact HX|discriminate]].
+    destruct (N.eqb_spec (N.land (e_val e) 4293918720) 0) as [E|E]; cbn [negb]; [intros HX; split; [exact HX|intros _; exact E]|discriminate]. }
+  intros H0. destruct (Hsub _ H0) as [H Hv]. clear H0 Hsub. revert H.
   unfold fmt_sdentry. cbn [pack pack1]. intros H.
   destruct (N.ltb_spec (e_type e) 256); cbn [bind] in H; [|discriminate].
   destruct (N.ltb_spec oi1 256); cbn [bind] in H; [|discriminate].
